@@ -20,6 +20,8 @@ type Univ struct {
 	Val   func(i int) any
 	noise func() // an unrelated comparison on the same collator
 	depth func() int
+	// rankers obtained from a sorter: the class default and a default sorter's own
+	sorterRank func(i, j int) (age.Rank, age.Rank)
 }
 
 // MakeUniv binds a typed universe to age.Collator[T].
@@ -37,6 +39,9 @@ func MakeUniv[T any](name string, vals []T) *Univ {
 		}
 	}
 	u.depth = func() int { return coll.GetDepth() }
+	u.sorterRank = func(i, j int) (age.Rank, age.Rank) {
+		return age.Sorter[T]().DefaultRanker()(vals[i], vals[j]), age.Sorter[T]().Make().GetRanker()(vals[i], vals[j])
+	}
 	return u
 }
 
@@ -193,6 +198,17 @@ func CheckUniverse(c *core.Ctx, u *Univ, prop string) {
 				if k, ok := NatRank(u.Val(i), u.Val(j)); ok && natName(k) != rname(x.r) {
 					report("rank/natural-order", []int{i, j}, "RankValues(a,b)=%s, the natural order says %s", rname(x.r), natName(k))
 				}
+				// ranking functions obtained from sorters order values the same way
+				func() {
+					defer func() {
+						if e := recover(); e != nil {
+							report("rank/sorter-ranker-panicked", []int{i, j}, "a ranker obtained from Sorter panicked: %s", trunc(fmt.Sprint(e)))
+						}
+					}()
+					if d, o := u.sorterRank(i, j); d != x.r || o != x.r {
+						report("rank/sorter-ranker-differs", []int{i, j}, "RankValues(a,b)=%s but Sorter.DefaultRanker says %s and a default sorter's ranker %s", rname(x.r), rname(d), rname(o))
+					}
+				}()
 			} else {
 				if x.cPanic != "" {
 					report("compare/panicked", []int{i, j}, "CompareValues(a,b) panicked: %s", x.cPanic)
